@@ -202,6 +202,10 @@ Section Rep.
       + rewrite updK_other in Hx1 by exact N1. rewrite updK_other in Hx2 by exact N2.
         exact (E p1 p2 x H1 H2 NE Hx1 Hx2).
   Qed.
+  Lemma LinkRep_ext t K K' : (forall p, K' p = K p) -> LinkRep t K -> LinkRep t K'.
+  Proof.
+    intros EQ [A B C D E]. constructor; intros; rewrite ?EQ in *; eauto.
+  Qed.
 End Rep.
 
 (* ------------------------------------------------------------------------------------ *)
@@ -552,5 +556,334 @@ Section RepInv.
         * rewrite (NSout Xout). split.
           -- intros [[A _]|[X _]]; [exact A | congruence].
           -- intros A. left. split; [exact A|]. intros (X & _). subst x. contradiction.
+  Qed.
+
+  Lemma Jrep_insert t e i t' : Jrep t -> In e es ->
+    get (t_parent t) (echild e) = Ok NULL ->
+    insert_edge q o t (eparent e) (echild e) i = Ok t' -> Jrep t'.
+  Proof.
+    intros [JC (K & LR & [O1 O2])] He GP H.
+    pose proof (Jcnt_insert L ns es q HV o t e i t' JC He GP H) as JC'.
+    split; [exact JC'|].
+    destruct JC as (L0 & L1 & L2 & GV & MO & LE1 & LE2 & NN1 & NN2).
+    destruct (edge_tm L ns es HV e He) as (Hc & Hp & Ht). fold N in Hc, Hp.
+    set (p := eparent e) in *. set (c := echild e) in *.
+    pose proof (insert_edge_par _ _ _ _ _ _ _ H) as SP.
+    unfold insert_edge in H. rewrite qN' in H. fold thr in H.
+    bind_inv H. destruct a as [[t1 pe] wr]. bind_inv H. rename a into t2. bind_inv H. rename a into t3.
+    bind_inv H. rename a into t4. bind_inv H. rename a into t5.
+    (* the ancestor path of p *)
+    assert (ZL0 : zlen (t_parent t) = N + 1) by (unfold zlen; rewrite L0; lia).
+    destruct (path_exists N (tmf ns) (t_parent t) ZL0 MO p ltac:(lia)) as [l Pl].
+    destruct (path_facts N (tmf ns) (t_parent t) MO p l Pl Hp) as (NDl & Rl & NEl).
+    assert (NCl : ~ In c l) by (intros X; destruct (Rl c X); lia).
+    destruct (propagate_path thr 1 c l _ t p NULL false t1 pe wr Pl NDl NCl E) as (_ & PE & NS & _).
+    destruct (PE NEl) as (EPE & npe & Gnpe & EWR). destruct (NS NEl) as (ac & Gac & NSx).
+    pose proof (propagate_l _ _ _ _ _ _ _ _ _ _ _ E) as SL1.
+    pose proof (propagate_par _ _ _ _ _ _ _ _ _ _ _ E) as (P1 & _ & _).
+    pose proof (LinkRep_same N _ _ _ SL1 LR) as LR1.
+    assert (PEin : In pe l) by (rewrite EPE; apply last_In; exact NEl).
+    destruct (Rl pe PEin) as [PEr _].
+    assert (PEC : pe <> c) by (intros X; rewrite X in PEin; contradiction).
+    assert (PEnull : get (t_parent t) pe = Ok NULL).
+    { rewrite EPE. apply (path_last_null _ _ _ Pl NEl). }
+    assert (ACnn : 0 <= ac) by (apply (nonneg_get (t_ns t) c); [exact NN1 | exact Gac]).
+    assert (NCc : get (t_ns t1) c = Ok ac).
+    { destruct (NSx c) as [_ X]. rewrite (X NCl). exact Gac. }
+    destruct (NSx pe) as [NSpe _]. destruct (NSpe PEin) as (npe' & Gnpe' & Gpe1).
+    assert (npe' = npe) by congruence. subst npe'.
+    (* root removal of c *)
+    assert (exists K2, LinkRep N t2 K2 /\ t_parent t2 = t_parent t /\ t_ns t2 = t_ns t1 /\
+              (forall p', p' <> N -> K2 p' = K p') /\
+              (forall x, In x (K2 N) <-> In x (K N) /\ ~ (x = c /\ thr <= ac)))
+      as (K2 & LR2 & P2 & N2 & K2o & K2n).
+    { destruct (cond_remove_root_c_cases _ _ _ _ _ E0) as (n & Gn & Cn).
+      rewrite NCc in Gn. inversion Gn; subst n. clear Gn.
+      destruct Cn as [(Tc & RB)|(Tc & ->)].
+      - assert (CK : In c (K N)).
+        { apply O2. split; [exact Hc|]. split; [exact GP|]. exists ac. auto. }
+        destruct (in_split _ _ CK) as (m1 & m2 & EM).
+        pose proof (LinkRep_remove N t1 t2 K N c m1 m2 RB LR1 ltac:(unfold N, zlen; lia) EM) as LR2.
+        exists (updK K N (m1 ++ m2)). split; [exact LR2|].
+        pose proof (remove_branch_par _ _ _ _ RB) as P2.
+        pose proof (remove_branch_cnt _ _ _ _ RB) as [N2 _].
+        split; [|split; [exact N2|split]].
+        + transitivity (t_parent t1); [|exact P1]. eapply set_same; [|exact P2]. rewrite P1. exact GP.
+        + intros p' NE. apply updK_other. exact NE.
+        + intros x. rewrite updK_same.
+          assert (NDm : NoDup (m1 ++ c :: m2)) by (rewrite <- EM; apply (lr_nodup N _ _ LR); unfold N, zlen; lia).
+          rewrite (in_remove_mid m1 m2 c x NDm). rewrite <- EM. split.
+          * intros [A B]. split; [exact A|]. intros (X & _). contradiction.
+          * intros [A B]. split; [exact A|]. intros X. apply B. split; [exact X | exact Tc].
+      - exists K. split; [exact LR1|]. split; [exact P1|]. split; [reflexivity|]. split; [reflexivity|].
+        intros x. split; [intros A; split; [exact A | intros (_ & X); lia] | intros [A _]; exact A]. }
+    (* root insertion of path_end *)
+    destruct (cond_insert_root_end_cases _ _ _ _ _ _ E1) as (n & Gn & Cn).
+    rewrite N2, Gpe1 in Gn. assert (En : n = npe + 1 * ac) by congruence. clear Gn.
+    assert (PEfresh : wr = false -> forall p', 0 <= p' <= N -> ~ In pe (K2 p')).
+    { intros W p' Hp' X. destruct (Z.eq_dec p' N) as [->|NE].
+      - apply K2n in X as [X _]. apply O2 in X as (_ & _ & n' & Gn' & Tn').
+        assert (n' = npe) by congruence. subst n'. rewrite EWR in W. apply Z.leb_gt in W. lia.
+      - rewrite (K2o p' NE) in X. apply (O1 p' pe ltac:(lia)) in X as [_ X]. rewrite PEnull in X.
+        inversion X. unfold NULL in *. lia. }
+    assert (exists K3, LinkRep N t3 K3 /\ t_parent t3 = t_parent t /\ t_ns t3 = t_ns t1 /\
+              (forall p', p' <> N -> K3 p' = K p') /\
+              (forall x, In x (K3 N) <-> In x (K2 N) \/ (x = pe /\ thr <= n /\ wr = false)))
+      as (K3 & LR3 & P3 & N3 & K3o & K3n).
+    { destruct Cn as [(Tn & W & IR)|(Tn & ->)].
+      - destruct (insert_root_split _ _ _ _ IR) as (t2' & IB & SL & NSs).
+        pose proof (LinkRep_insert N t2 t2' K2 N pe IB LR2 ltac:(unfold N, zlen; lia) PEr (PEfresh W)) as LRi.
+        exists (updK K2 N (K2 N ++ [pe])). split; [eapply LinkRep_same; eauto|].
+        split; [|split; [congruence|split]].
+        + rewrite <- P2. eapply insert_root_par_same; eauto. rewrite P2. exact PEnull.
+        + intros p' NE. rewrite updK_other by exact NE. auto.
+        + intros x. rewrite updK_same, in_app_iff. simpl. split.
+          * intros [A|[A|[]]]; [left; exact A | right; auto].
+          * intros [A|[A _]]; [left; exact A | right; left; congruence].
+      - exists K2. split; [exact LR2|]. split; [exact P2|]. split; [exact N2|]. split; [exact K2o|].
+        intros x. split; [intros A; left; exact A|].
+        intros [A|(_ & T1 & W)]; [exact A|]. destruct Tn as [Tn|Tn]; [lia | congruence]. }
+    (* c becomes the last child of p *)
+    assert (Cfresh : forall p', 0 <= p' <= N -> ~ In c (K3 p')).
+    { intros p' Hp' X. destruct (Z.eq_dec p' N) as [->|NE].
+      - apply K3n in X as [X|(X & _)]; [|congruence].
+        apply K2n in X as [X NX]. apply NX. split; [reflexivity|].
+        apply O2 in X as (_ & _ & n' & Gn' & Tn'). assert (n' = ac) by congruence. lia.
+      - rewrite (K3o p' NE) in X. apply (O1 p' c ltac:(lia)) in X as [_ X]. rewrite GP in X.
+        inversion X. unfold NULL in *. lia. }
+    pose proof (LinkRep_insert N t3 t4 K3 p c E2 LR3 ltac:(lia) Hc Cfresh) as LR4.
+    pose proof (insert_branch_cnt _ _ _ _ E2) as [N4 _].
+    assert (SL5 : same_links t4 t5) by (apply s_edge_l in E3; exact E3).
+    pose proof (s_edge_cnt _ _ _ _ E3) as [N5 _]. simpl in N5.
+    pose proof (cond_lists_l _ _ _ _ _ H) as SL6.
+    pose proof (cond_lists_cnt _ _ _ _ _ H) as [N6 _].
+    exists (updK K3 p (K3 p ++ [c])). split.
+    { eapply LinkRep_same; [exact SL6|]. eapply LinkRep_same; [exact SL5 | exact LR4]. }
+    assert (NF : t_ns t' = t_ns t1) by congruence.
+    split.
+    - intros p' x Hp'. rewrite (get_set _ _ _ x _ SP). unfold updK.
+      destruct (p' =? p) eqn:EP.
+      + apply Z.eqb_eq in EP. subst p'. rewrite in_app_iff, (K3o p ltac:(lia)), (O1 p x Hp'). simpl.
+        destruct (x =? c) eqn:EX.
+        * apply Z.eqb_eq in EX. subst x. split; [intros _; split; [exact Hc | reflexivity] | intros _; right; left; reflexivity].
+        * apply Z.eqb_neq in EX. split; [intros [A|[A|[]]]; [exact A | congruence] | intros A; left; exact A].
+      + apply Z.eqb_neq in EP. rewrite (K3o p' ltac:(lia)), (O1 p' x Hp').
+        destruct (x =? c) eqn:EX.
+        * apply Z.eqb_eq in EX. subst x. rewrite GP.
+          split; [intros [_ X]; inversion X; unfold NULL in *; lia | intros [_ X]; inversion X; congruence].
+        * tauto.
+    - intros x. rewrite updK_other by lia. rewrite K3n, K2n, O2, NF. rewrite (get_set _ _ _ x _ SP).
+      destruct (Z.eq_dec x c) as [->|XC].
+      + rewrite Z.eqb_refl. split.
+        * intros [[(_ & _ & n' & Gn' & Tn') NX]|(X & _)]; [|congruence].
+          exfalso. apply NX. split; [reflexivity|]. assert (n' = ac) by congruence. lia.
+        * intros (_ & X & _). inversion X. unfold NULL in *. lia.
+      + replace (x =? c) with false by (symmetry; apply Z.eqb_neq; exact XC).
+        destruct (NSx x) as [NSin NSout].
+        destruct (in_dec Z.eq_dec x l) as [Xin|Xout].
+        * destruct (NSin Xin) as (a & Ga & Ga').
+          destruct (Z.eq_dec x pe) as [->|XP].
+          -- assert (a = npe) by congruence. subst a. split.
+             ++ intros [[(_ & _ & n' & Gn' & Tn') _]|(_ & T1 & _)].
+                ** split; [exact PEr|]. split; [exact PEnull|]. exists (npe + 1 * ac). split; [exact Ga'|].
+                   assert (n' = npe) by congruence. lia.
+                ** split; [exact PEr|]. split; [exact PEnull|]. exists (npe + 1 * ac). split; [exact Ga'|]. lia.
+             ++ intros (_ & _ & n' & Gn' & Tn'). assert (n' = npe + 1 * ac) by congruence.
+                destruct wr eqn:W.
+                ** left. split; [|intros (X & _); congruence].
+                   split; [exact PEr|]. split; [exact PEnull|]. exists npe. split; [exact Ga|].
+                   symmetry in EWR. apply Z.leb_le in EWR. exact EWR.
+                ** right. split; [reflexivity|]. split; [lia | reflexivity].
+          -- assert (NP : get (t_parent t) x <> Ok NULL).
+             { apply (path_inner_has_parent _ _ _ Pl x Xin). rewrite <- EPE. exact XP. }
+             split.
+             ++ intros [[(_ & X & _) _]|(X & _)]; congruence.
+             ++ intros (_ & X & _). congruence.
+        * rewrite (NSout Xout). split.
+          -- intros [[A _]|(X & _)]; [exact A|]. subst x. contradiction.
+          -- intros A. left. split; [exact A|]. intros (X & _). congruence.
+  Qed.
+
+  (* ---- the initial state ---- *)
+  Lemma samples_from_spec : forall l i s, In s (samples_from l i) -> i <= s < i + zlen l.
+  Proof.
+    induction l as [|n r IH]; intros i s H; simpl in H; [destruct H|].
+    unfold zlen in *. simpl length. destruct (nsample n).
+    - destruct H as [<-|H]; [lia|]. apply IH in H. lia.
+    - apply IH in H. lia.
+  Qed.
+
+  Lemma samples_from_nodup : forall l i, NoDup (samples_from l i).
+  Proof.
+    induction l as [|n r IH]; intros i; simpl; [constructor|].
+    destruct (nsample n); [|apply IH]. constructor; [|apply IH].
+    intros H. apply samples_from_spec in H. lia.
+  Qed.
+
+  Lemma qsamples : q_samples q = samples_from ns 0.
+  Proof.
+    destruct (mk_tseq_inv L ns es Ins Rem q HQ) as (steps & Oend & _).
+    unfold mk_tseq in HQ. revert HQ. clear.
+    destruct (resolve es Ins); cbn [bind]; try discriminate.
+    destruct (resolve es Rem); cbn [bind]; try discriminate.
+    destruct (sweep L a a0) as [[st oe]| | |]; cbn [bind]; try discriminate.
+    intros H; inversion H; reflexivity.
+  Qed.
+
+  Lemma insert_roots_rep : forall ss t K t',
+    LinkRep N t K -> (forall s, In s ss -> 0 <= s < N) -> NoDup ss ->
+    (forall s p', In s ss -> 0 <= p' <= N -> ~ In s (K p')) ->
+    insert_roots N t ss = Ok t' ->
+    LinkRep N t' (updK K N (K N ++ ss)).
+  Proof.
+    induction ss as [|s r IH]; intros t K t' LR R ND Fr H; simpl in H.
+    - inversion H; subst. eapply LinkRep_ext; [|exact LR].
+      intros p. unfold updK. destruct (p =? N) eqn:E; [|reflexivity].
+      apply Z.eqb_eq in E. subst p. apply app_nil_r.
+    - bind_inv H. destruct (insert_root_split _ _ _ _ E) as (t1 & IB & SL & _).
+      assert (NN : 0 <= N) by (unfold N, zlen; lia).
+      pose proof (LinkRep_insert N t t1 K N s IB LR ltac:(lia) (R s (or_introl eq_refl))
+                    (fun p' Hp' => Fr s p' (or_introl eq_refl) Hp')) as LR1.
+      pose proof (LinkRep_same N _ _ _ SL LR1) as LRa.
+      inversion ND as [|? ? ND1 ND2]; subst.
+      specialize (IH a (updK K N (K N ++ [s])) t' LRa (fun x Hx => R x (or_intror Hx)) ND2).
+      eapply LinkRep_ext; [|apply IH; [|exact H]].
+      + intros p. unfold updK. destruct (p =? N) eqn:EPN; [|reflexivity].
+        rewrite Z.eqb_refl. rewrite <- app_assoc. reflexivity.
+      + intros s' p' Hs' Hp' X. unfold updK in X. destruct (p' =? N) eqn:EPN.
+        * apply in_app_iff in X as [X|[X|[]]].
+          -- apply Z.eqb_eq in EPN. subst p'. exact (Fr s' N (or_intror Hs') Hp' X).
+          -- subst s'. contradiction.
+        * exact (Fr s' p' (or_intror Hs') Hp' X).
+  Qed.
+
+  Lemma insert_roots_ns V : forall ss t t', insert_roots V t ss = Ok t' -> t_ns t' = t_ns t.
+  Proof. intros ss t t' H. apply insert_roots_cnt in H as [X _]. exact X. Qed.
+
+  Lemma existsb_eqb_In x l : existsb (Z.eqb x) l = true <-> In x l.
+  Proof.
+    rewrite existsb_exists. split.
+    - intros (y & Hy & E). apply Z.eqb_eq in E. now subst.
+    - intros H. exists x. split; [exact H | apply Z.eqb_refl].
+  Qed.
+
+  Lemma Jrep_clear t : tree_clear q o = Ok t -> Jrep t.
+  Proof.
+    intros H. pose proof (Jcnt_clear L ns es Ins Rem q HQ o t H) as JC. split; [exact JC|].
+    pose proof (tree_clear_par _ _ _ H) as [PP _].
+    assert (HN : 0 <= q_N q) by (rewrite qN'; unfold N, zlen; lia).
+    destruct (tree_clear_cnt _ _ _ H HN) as (_ & _ & _ & _ & G). rewrite qN' in *.
+    assert (SR : forall s, In s (q_samples q) -> 0 <= s < N).
+    { intros s Hs. rewrite qsamples in Hs. apply samples_from_spec in Hs. fold N in Hs. lia. }
+    unfold tree_clear in H. rewrite qN' in H.
+    bind_inv H. bind_inv H. bind_inv H. bind_inv H. bind_inv H.
+    set (nul := repeat NULL (Z.to_nat (N + 1))) in *.
+    set (t0 := mkTree nul nul nul nul nul (repeat 0 (Z.to_nat (N + 1))) nul a0 a2 a3 a3
+                 (if o_lists o then repeat NULL (length (q_samples q)) else []) 0 null_pos) in *.
+    assert (GN : forall p, 0 <= p <= N -> get nul p = Ok NULL) by (intros p Hp; apply get_repeat; lia).
+    assert (LR0 : LinkRep N t0 (fun _ => [])).
+    { constructor; simpl; auto.
+      - intros p Hp. unfold Chain. simpl. unfold nxt, prv. simpl. rewrite (GN p Hp). auto.
+      - intros; constructor.
+      - intros p Hp. apply get_repeat. lia.
+      - intros p x _ []. }
+    assert (PNULL : forall c, 0 <= c < N -> get (t_parent t) c = Ok NULL).
+    { intros c Hc. rewrite PP. apply get_repeat. lia. }
+    assert (O1g : forall K, (forall p, p <> N -> K p = []) ->
+              forall p c, 0 <= p < N -> (In c (K p) <-> 0 <= c < N /\ get (t_parent t) c = Ok p)).
+    { intros K HK p c Hp. rewrite (HK p ltac:(lia)). split; [intros []|].
+      intros [Hc X]. rewrite (PNULL c Hc) in X. inversion X. unfold NULL in *. lia. }
+    destruct ((o_thr o =? 1) && (0 <? zlen (q_samples q))) eqn:C.
+    - apply andb_true_iff in C as [C1 C2]. apply Z.eqb_eq in C1.
+      pose proof (insert_roots_rep (q_samples q) t0 (fun _ => []) t LR0 SR) as LRt.
+      specialize (LRt ltac:(rewrite qsamples; apply samples_from_nodup) ltac:(intros ? ? ? ? []) H).
+      exists (updK (fun _ => []) N ([] ++ q_samples q)). split; [exact LRt|]. split.
+      + apply O1g. intros p NE. apply updK_other. exact NE.
+      + intros c. rewrite updK_same. simpl. split.
+        * intros Hc. pose proof (SR c Hc) as Rc. split; [exact Rc|]. split; [apply PNULL; exact Rc|].
+          destruct (G c Rc) as [G1 _]. exists (ind (q_samples q) c). split; [exact G1|].
+          unfold ind. rewrite (proj2 (existsb_eqb_In c _) Hc). unfold thr. lia.
+        * intros (Rc & _ & n & Gn & Tn). destruct (G c Rc) as [G1 _].
+          rewrite G1 in Gn. inversion Gn; subst n. unfold ind in Tn.
+          destruct (existsb (Z.eqb c) (q_samples q)) eqn:EX; [apply existsb_eqb_In; exact EX|].
+          unfold thr in Tn. lia.
+    - inversion H; subst t. exists (fun _ => []). split; [exact LR0|]. split.
+      + apply O1g. reflexivity.
+      + intros c. split; [intros []|]. intros (Rc & _ & n & Gn & Tn).
+        destruct (G c Rc) as [G1 _].
+        assert (En : Ok n = Ok (ind (q_samples q) c)) by (etransitivity; [symmetry; exact Gn | exact G1]).
+        inversion En; subst n.
+        unfold ind in Tn. apply andb_false_iff in C as [C|C].
+        * apply Z.eqb_neq in C. destruct (existsb (Z.eqb c) (q_samples q)); unfold thr in *; lia.
+        * apply Z.ltb_ge in C. assert (q_samples q = []).
+          { destruct (q_samples q); [reflexivity|]. unfold zlen in C. simpl in C. lia. }
+          rewrite H0 in Tn. simpl in Tn. unfold thr in *. lia.
+  Qed.
+
+  Lemma Jrep_pos t p : Jrep t -> Jrep (w_pos t p).
+  Proof.
+    intros [JC (K & LR & OW)]. split; [apply Jcnt_pos; exact JC|].
+    exists K. split; [|exact OW].
+    eapply LinkRep_same; [|exact LR]. repeat split.
+  Qed.
+
+  Theorem rep_invariant : forall k t, tree_at_index q o k = Ok t -> Jrep t.
+  Proof.
+    apply (sweep_induction L ns es Ins Rem q HV HI HQ o Jrep).
+    - exact Jrep_clear.
+    - exact Jrep_remove.
+    - exact Jrep_insert.
+    - exact Jrep_pos.
+  Qed.
+
+  (* the model's own child-list walk returns the abstract list *)
+  Lemma chain_seg t p : forall l prev fuel first,
+    seg t p prev l -> (length l <= fuel)%nat -> nxt t p prev = Ok first ->
+    chain fuel (t_rs t) first = Ok l.
+  Proof.
+    induction l as [|x r IH]; intros prev fuel first S HL HF; simpl in S.
+    - destruct S as [S1 _]. assert (first = NULL) by congruence. subst first.
+      destruct fuel; reflexivity.
+    - destruct S as (S1 & S2 & S3 & S4). assert (first = x) by congruence. subst first.
+      destruct fuel as [|f]; [simpl in HL; lia|]. simpl.
+      replace (x =? NULL) with false by (symmetry; apply Z.eqb_neq; exact S3).
+      assert (exists n, nxt t p x = Ok n) as [n Gn].
+      { destruct r; simpl in S4; [destruct S4 as [X _] | destruct S4 as (X & _)]; eauto. }
+      pose proof Gn as Gn'. unfold nxt in Gn'.
+      replace (x =? NULL) with false in Gn' by (symmetry; apply Z.eqb_neq; exact S3).
+      rewrite Gn'. cbn [bind]. rewrite (IH x f n S4 ltac:(simpl in HL; lia) Gn). reflexivity.
+  Qed.
+
+  Lemma children_of_rep t K p : LinkRep N t K -> length (t_parent t) = Z.to_nat (N + 1) ->
+    0 <= p <= N -> children_of t p = Ok (K p).
+  Proof.
+    intros LR LP Hp. unfold children_of.
+    pose proof (lr_chain N _ _ LR p Hp) as C. unfold Chain in C.
+    assert (exists c0, nxt t p NULL = Ok c0) as [c0 G0].
+    { destruct (K p); simpl in C; [destruct C as [X _] | destruct C as (X & _)]; eauto. }
+    pose proof G0 as G0'. unfold nxt in G0'. simpl in G0'. rewrite G0'. cbn [bind].
+    eapply chain_seg; eauto.
+    (* |K p| <= N by pigeonhole *)
+    assert (length (K p) <= length (zseq (Z.to_nat N)))%nat.
+    { apply NoDup_incl_length; [apply (lr_nodup N _ _ LR p Hp)|].
+      intros x Hx. apply In_zseq. pose proof (lr_range N _ _ LR p x Hp Hx). lia. }
+    unfold zseq in H. rewrite map_length, seq_length in H. lia.
+  Qed.
+
+  Theorem links_consistent_lemma : forall k t, tree_at_index q o k = Ok t ->
+    exists K : Z -> list Z,
+      (forall p, 0 <= p <= N ->
+         Chain t p (K p) /\ NoDup (K p) /\ get (t_nc t) p = Ok (zlen (K p)) /\
+         children_of t p = Ok (K p)) /\
+      (forall p c, 0 <= p < N -> (In c (K p) <-> 0 <= c < N /\ get (t_parent t) c = Ok p)) /\
+      (forall c, In c (K N) <->
+         0 <= c < N /\ get (t_parent t) c = Ok NULL /\
+         exists n, get (t_ns t) c = Ok n /\ o_thr o <= n).
+  Proof.
+    intros k t H. destruct (rep_invariant k t H) as [JC (K & LR & [O1 O2])].
+    destruct JC as (L0 & _).
+    exists K. split; [|split; [exact O1 | exact O2]].
+    intros p Hp. split; [apply (lr_chain N _ _ LR p Hp)|]. split; [apply (lr_nodup N _ _ LR p Hp)|].
+    split; [apply (lr_nc N _ _ LR p Hp)|]. apply children_of_rep; auto.
   Qed.
 End RepInv.
